@@ -1,14 +1,19 @@
 #!/bin/sh
-# MANIFEST.setup_cmd: build the Lean project (all property modules, the audit tool, every driver exe)
+# MANIFEST.setup_cmd: build the Lean project (property modules of every claimed check, the audit tool, their driver exes)
 # and warm the Go build cache for the translators. Offline; reads only files on disk.
 set -e
 cd "$(dirname "$0")"
 export GOFLAGS=-mod=mod GOPROXY=off GOSUMDB=off GOTOOLCHAIN=local
 mkdir -p .scratch evidence replays
+targets=$(python3 - <<'PY'
+import json
+c = json.load(open("tools/claims.json"))["claimed"]
+print(" ".join("OtelVerif.Props.%s drv_%s" % (p, p.lower()) for p in sorted(c)))
+PY
+)
 cd lean
-exes=$(sed -n 's/^name = "\(drv_[a-z0-9_]*\)"$/\1/p' lakefile.toml | tr '\n' ' ')
 # shellcheck disable=SC2086
-flock .verif.lock lake build OtelVerif OtelVerif.Common.Audit $exes
+flock .verif.lock lake build OtelVerif.Common.Line OtelVerif.Common.Audit $targets
 cd ../translators
-go build ./... 
+go build ./...
 echo setup-ok
